@@ -5,9 +5,8 @@ thread is pre-empted and who runs next.
 * exactly one thread holds the baton; everyone else is parked on a private
   semaphore, so ``sim.current`` is well defined even though generator frames
   migrate between threads;
-* ``sys.settrace`` installs a local tracer only on frames whose code lives under
-  the library directory (plus harness-defined function extensions), so harness
-  bookkeeping is atomic and C code (regex matching, dict operations) is atomic
+* ``sys.monitoring`` (dst.monitor) delivers line / instruction events only for
+  code objects of the library, so harness bookkeeping is atomic and C code (regex matching, dict operations) is atomic
   as it is under the GIL;
 * every decision is recorded as (step, thread); a recorded decision list can be
   fed back instead of PRNG draws (replay, schedule minimisation).
